@@ -176,7 +176,10 @@ def run_one(choices, params):
                 raise core.Violation("split-frame", "frame does not decode: %r" % (e,))
             seqs.append(seq)
             if h == RC.H_PING:
-                got.append(boxed[1][0])
+                try:
+                    got.append(boxed[1][0])
+                except Exception as e:
+                    raise core.Violation("split-frame", "frame decodes to a damaged message: %r (%r)" % (str(boxed)[:80], e))
             elif h == RC.H_DEL:
                 got.append("DEL")
             else:
